@@ -1,12 +1,17 @@
 """C14 What is written to disk reads back unchanged and never overwrites earlier output.
 
-Four sub-checks
+Five sub-checks
 
 * ``pickle``   synthetic results objects -> write_pickle -> bioResults(pickle_file=...) (and the
   documented ``estimate(recycle=True)`` route): identical tables, statistics and reports.
 * ``toml``     every admissible value of every configuration parameter: dump_file -> read_file gives
   ``==`` values of the same type, also after hand edits the reader documents (boolean spellings, removed
   entries) and after repeated dump/read cycles.
+* ``tomlhist`` histories of one parameter object: created by reading a *hand-written* file (a generated
+  subset of sections / entries, any order, comments, other spellings and layouts), then generated
+  set_value / dump_file / read_file / add_parameter steps; after every dump a fresh object reads the file
+  and must hold, for EVERY parameter (mentioned or not in any earlier file), the value of the dumping object,
+  which in turn must be the value last set / last read / the default (reference model in the judge).
 * ``reports``  HTML, LaTeX, F12 and the printed form are *read back* (table rows, fixed columns) and
   must show every estimated parameter with its value.
 * ``history``  sequences of output-generating operations in one scratch directory that already
@@ -24,6 +29,8 @@ import os
 import re
 import shutil
 import tempfile
+import tomllib
+import traceback
 import types
 
 import numpy as np
@@ -34,6 +41,7 @@ from hypothesis import strategies as st
 
 # heavy imports at module level: every forked child inherits them
 import biogeme.biogeme as bio
+import biogeme.check_parameters as bcp
 import biogeme.database as bdb
 import biogeme.exceptions as excep
 import biogeme.filenames as bfn
@@ -42,7 +50,7 @@ import biogeme.parameters as bpar
 import biogeme.results as bres
 import biogeme.tools.files as bfiles
 from biogeme import models as bmodels
-from biogeme.default_parameters import all_parameters_tuple
+from biogeme.default_parameters import ParameterTuple, all_parameters_tuple
 from biogeme.expressions import Beta, Variable
 from biogeme.function_output import BiogemeFunctionOutput
 
@@ -61,6 +69,11 @@ ASSUMPTIONS = [
     'python base class (bool/int/float/str), tomlkit returns subclasses',
     'if the installed tomlkit rejects multi-line comments (recorded as a finding of its own) the round '
     'trip is continued with Item.comment of tomlkit<0.13 (stores the text unchanged), biogeme code untouched',
+    'hand-written parameter files are valid TOML 1.0 (each generated text is first read with the independent '
+    'parser tomllib and must give the intended content: otherwise the harness stops with exit 2); booleans are '
+    'written as the quoted spellings the reader documents; a file read into an object that already holds '
+    'non-default values leaves a parameter it does not mention at the held value (or resets it to the default: '
+    'both accepted, the model follows the object); entries of unknown names / of another section are ignored',
     'a report shows a value if the cell/field read back as a number agrees to 3 significant digits '
     '(HTML, LaTeX, printed form) or 1e-11 relative (F12); F12 labels are the first 10 characters',
     'file names may carry a directory part inside the scratch directory (sub/name, ./name, absolute); snapshot = '
@@ -1035,6 +1048,560 @@ def render_toml(spec):
 
 
 # =============================================================================================
+# sub-check 2b: histories of one parameter object that starts from a hand-written file
+
+USER_FILE_NAMES = ['biogeme.toml', 'my params.toml', 'p.v2.toml', 'été.toml', 'user.toml']
+DUMP_FILE_NAMES = ['out.toml', 'second.toml', 'biogeme.toml', 'my params.toml', 'copy of p.toml']
+MISSING_FILE_NAMES = ['not_there.toml', 'new file.toml']
+HEADER_COMMENTS = ['my settings', 'Default parameter file for Biogeme 3.2.14', 'edited by hand, 50% done', '',
+                   '[Estimation]', 'bootstrap_samples = 7', 'é ü 日本', 'tab\there']
+ENTRY_COMMENTS = ['fewer samples', 'see https://biogeme.epfl.ch/#parameters', 'was = 100 "before"', 'é ü 日本',
+                  '[NotASection]', 'x = 1 # nested', '', "it's fine"]
+# entries the reader documents as ignored ('Entry ... in Section ... is ignored by Biogeme'): an unknown
+# name, and names that are parameters of ANOTHER section (placed only where (section, name) is unknown)
+STRAY_ENTRIES = [['not_a_biogeme_parameter', '12'], ['number_of_draws', '3'], ['generate_html', '"False"'],
+                 ['dogleg', '"no"'], ['tolerance', '0.5'], ['version', '"0.0"']]
+# parameters a user adds with add_parameter (name, section, declared type, default); two of them carry
+# the name of a library parameter of another section
+EXTRA_PARAMETERS = [
+    ['my_option', 'Estimation', 'int', ['i', 3]],
+    ['user_flag', 'UserSection', 'bool', ['b', False]],
+    ['label', 'Output', 'str', ['s', 'run 1']],
+    ['scale', 'SimpleBounds', 'float', ['f', (2.5).hex()]],
+    ['seed', 'Estimation', 'int', ['i', 11]],
+    ['max_iterations', 'TrustRegion', 'int', ['i', 77]],
+]
+_EXTRA_CHECKS = dict(int=('is_integer',), bool=('is_boolean',), float=('is_number',), str=())
+_PY_TYPES = dict(int=int, bool=bool, float=float, str=str)
+
+
+def _extra_tuple(idx):
+    name, section, tname, default = EXTRA_PARAMETERS[idx]
+    checks = tuple(getattr(bcp, c) for c in _EXTRA_CHECKS[tname]) or None
+    return ParameterTuple(name=name, value=_dec(default), type=_PY_TYPES[tname], section=section,
+                          description=f'{tname}: parameter number {idx} defined by the user of the library.',
+                          check=checks)
+
+
+def _toml_basic_body(s):
+    """Body of a TOML basic string: quote, backslash and every control / line-separator character escaped."""
+    buf = []
+    for ch in s:
+        o = ord(ch)
+        if ch == '"':
+            buf.append('\\"')
+        elif ch == '\\':
+            buf.append('\\\\')
+        elif o < 0x20 or 0x7f <= o <= 0x9f or o in (0x2028, 0x2029):
+            buf.append('\\u%04X' % o)
+        else:
+            buf.append(ch)
+    return ''.join(buf)
+
+
+def _literal_possible(s):
+    return all(ch != "'" and (ord(ch) >= 0x20 or ch == '\t') and not 0x7f <= ord(ch) <= 0x9f
+               and ord(ch) not in (0x2028, 0x2029) for ch in s)
+
+
+def _toml_literal(enc, style):
+    """How a user would write the value by hand; `style` selects one of the spellings TOML allows.
+    Returns (text, python value an independent TOML parser must give)."""
+    kind, v = enc[0], _dec(enc)
+    if kind == 'b':
+        word = (TRUE_SPELLINGS if v else FALSE_SPELLINGS)[style % 4]
+        q = '"' if (style // 4) % 2 == 0 else "'"
+        return f'{q}{word}{q}', word
+    if kind == 'i':
+        how = style % 4
+        if how == 1 and v >= 0:
+            return f'+{v}', v
+        if how == 2:
+            return f'{v:_}', v
+        if how == 3 and v >= 0:
+            return hex(v), v
+        return str(v), v
+    if kind == 'f':
+        how = style % 4
+        if math.isinf(v):
+            return ('+inf' if how == 2 and v > 0 else ('inf' if v > 0 else '-inf')), v
+        text = repr(v)
+        if how == 1:
+            text = text.replace('e', 'E')
+        elif how == 2 and math.copysign(1.0, v) > 0:
+            text = '+' + text
+        elif how == 3:
+            text = format(v, '.17e')
+        return text, v
+    if kind == 's':
+        how = style % 3
+        if how == 1 and _literal_possible(v):
+            return f"'{v}'", v
+        if how == 2:
+            return f'"""{_toml_basic_body(v)}"""', v
+        return f'"{_toml_basic_body(v)}"', v
+    raise AssertionError(f'no literal for {enc!r}')  # harness bug
+
+
+def _user_file(fs):
+    """(text, mentioned, parsed): the hand-written file of a file spec, the entries it gives to parameters
+    ('section/name' -> encoded value) and what an independent TOML parser must read from it."""
+    lines = [('# ' + c) if c else '#' for c in fs['header']]
+    top, tables = [], []
+    mentioned, parsed = {}, {}
+
+    def key_text(name, ws):
+        return f'"{name}"' if ws == 3 else name
+
+    def eq_text(ws):
+        return {0: ' = ', 1: '=', 2: '   =   ', 3: ' = '}[ws]
+
+    for sec in fs['sections']:
+        section, layout = sec['section'], sec['layout']
+        items = []  # (name, literal, whitespace style, comment)
+        for name, enc, style, ws, comment in sec['entries']:
+            text, pyval = _toml_literal(enc, style)
+            items.append((name, text, ws, comment))
+            mentioned[f'{section}/{name}'] = enc
+            parsed.setdefault(section, {})[name] = pyval
+        for name, text in sec['strays']:
+            items.append((name, text, 0, None))
+            parsed.setdefault(section, {})[name] = tomllib.loads(f'x = {text}')['x']
+        if layout == 'inline':
+            parsed.setdefault(section, {})
+            body = ', '.join(f'{key_text(n, ws)}{eq_text(ws)}{t}' for n, t, ws, _c in items)
+            line = f'{section} = {{ {body} }}' if items else f'{section} = {{}}'
+            top.append(line + (f' # {sec["comment"]}' if sec['comment'] is not None else ''))
+        elif layout == 'dotted':
+            if sec['comment'] is not None and items:
+                top.append(f'# {sec["comment"]}')
+            for n, t, ws, c in items:
+                top.append(f'{section}.{key_text(n, ws)}{eq_text(ws)}{t}' + (f' # {c}' if c is not None else ''))
+        else:
+            parsed.setdefault(section, {})
+            tables.extend([''] * sec['blank'])
+            head = {0: f'[{section}]', 1: f'[ {section} ]', 2: f'["{section}"]'}[sec['head']]
+            tables.append(' ' * sec['indent'] + head + (f' # {sec["comment"]}' if sec['comment'] is not None else ''))
+            for n, t, ws, c in items:
+                if c is not None and ws == 2:
+                    tables.append(f'# {c}')  # the comment on a line of its own, above the entry
+                    c = None
+                tables.append(' ' * sec['indent'] + f'{key_text(n, ws)}{eq_text(ws)}{t}' +
+                              (f' # {c}' if c is not None else ''))
+    if fs['unknown_section']:
+        tables += ['', '[SomeOtherTool]', 'number_of_draws = 7', 'generate_html = "False"']
+        parsed['SomeOtherTool'] = dict(number_of_draws=7, generate_html='False')
+    text = '\n'.join(lines + top + tables)
+    if fs['final_newline']:
+        text += '\n'
+    return text, mentioned, parsed
+
+
+def _selfcheck_user_file(fs):
+    """The hand-written text must be valid TOML with the intended content for an independent parser
+    (tomllib); anything else is a bug of this generator, not of the library."""
+    text, _mentioned, parsed = _user_file(fs)
+    try:
+        got = tomllib.loads(text)
+    except tomllib.TOMLDecodeError as e:
+        raise AssertionError(f'harness: generated user file is not valid TOML ({e}):\n{text}')
+
+    def same(a, b):
+        if isinstance(a, dict) or isinstance(b, dict):
+            return (isinstance(a, dict) and isinstance(b, dict) and set(a) == set(b)
+                    and all(same(a[k], b[k]) for k in a))
+        return type(a) is type(b) and a == b
+
+    if not same(got, parsed):
+        raise AssertionError(f'harness: generated user file reads as {got!r}, intended {parsed!r}:\n{text}')
+    return text
+
+
+def _written_keys(fname):
+    """'section/name' of every entry an independent parser finds in a file (None: not parseable)."""
+    try:
+        with open(fname, 'rb') as f:
+            doc = tomllib.load(f)
+    except (tomllib.TOMLDecodeError, OSError, UnicodeDecodeError):
+        return None
+    return sorted(f'{s}/{n}' for s, entries in doc.items() if isinstance(entries, dict) for n in entries)
+
+
+def _observe_tomlhist(spec):
+    return _in_scratch(_observe_tomlhist_here, spec)
+
+
+def _observe_tomlhist_here(spec):
+    lib = _lib()
+    res = dict(native_dump_error=None, steps=[])
+    try:
+        lib.par.Parameters().generate_document()
+    except ValueError as e:
+        if 'line breaks' not in str(e):
+            raise
+        res['native_dump_error'] = f'{type(e).__name__}: {e}'
+        tki.Item.comment = _old_tomlkit_comment  # child process only
+    user_files = {}
+    for fs in spec['files']:
+        text, mentioned, _parsed = _user_file(fs)
+        user_files[fs['name']] = mentioned
+        if fs['crlf']:
+            text = text.replace('\n', '\r\n')
+        with open(fs['name'], 'wb') as f:
+            f.write(text.encode('utf-8'))
+    p = lib.par.Parameters()
+    res['defaults'] = _read_all(lib.par, p)
+    extras = []  # indices of the user-defined parameters the current object knows
+
+    def fresh_reader(fname):
+        q = lib.par.Parameters()
+        for idx in extras:
+            q.add_parameter(_extra_tuple(idx))
+        q.read_file(fname)
+        return _read_all(lib.par, q)
+
+    for op in spec['ops']:
+        kind = op[0]
+        step = dict(exc=None, refused=None)
+        res['steps'].append(step)
+        try:
+            if kind == 'new':
+                p, extras = lib.par.Parameters(), []
+            elif kind in ('open', 'read'):
+                if kind == 'open':
+                    p, extras = lib.par.Parameters(), []
+                step['existed'] = os.path.isfile(op[1])
+                try:
+                    p.read_file(op[1])
+                except excep.BiogemeError as e:
+                    # a refusal is legitimate only if set_value refuses one of the values as well
+                    probe = lib.par.Parameters()
+                    for idx in extras:
+                        probe.add_parameter(_extra_tuple(idx))
+                    bad = None
+                    for k, enc in user_files.get(op[1], {}).items():
+                        section, name = k.split('/', 1)
+                        if k in _read_all(lib.par, probe):
+                            try:
+                                probe.set_value(name, _dec(enc), section)
+                            except excep.BiogemeError:
+                                bad = k
+                    step['refused'] = dict(msg=str(e)[:300], also_by_set_value=bad)
+                if not step['existed'] and os.path.isfile(op[1]):
+                    step['created_readback'] = fresh_reader(op[1])
+                    step['written'] = _written_keys(op[1])
+            elif kind == 'set':
+                try:
+                    p.set_value(op[1], _dec(op[3]), op[2])
+                except excep.BiogemeError as e:
+                    step['refused'] = dict(msg=str(e)[:300])
+            elif kind == 'add':
+                p.add_parameter(_extra_tuple(op[1]))
+                if op[1] not in extras:
+                    extras.append(op[1])
+            elif kind == 'dump':
+                step['before'] = _read_all(lib.par, p)
+                p.dump_file(op[1])
+                step['readback'] = fresh_reader(op[1])
+                step['written'] = _written_keys(op[1])
+            else:
+                raise AssertionError(f'unknown op {op!r}')  # harness bug
+        except AssertionError:
+            raise
+        except Exception as e:  # noqa: judged by the parent
+            step['exc'] = [type(e).__name__, str(e)[:300], traceback.format_exc(limit=6)[-700:]]
+        step['live'] = _read_all(lib.par, p)
+        if step['exc'] or step['refused']:
+            break  # the state after a refusal / an exception is not specified
+    return res
+
+
+def _same_enc(g, exp):
+    return g is not None and g[0] == exp[0] and _dec(g) == _dec(exp)
+
+
+def _mismatch(g, exp):
+    if g is None:
+        return 'missing'
+    return 'type' if g[0] != exp[0] else 'value'
+
+
+def judge_tomlhist(spec) -> Outcome:
+    out = _judge_tomlhist(spec)
+    out.classes = list(dict.fromkeys(out.classes))  # a label counts once per case
+    return out
+
+
+def _judge_tomlhist(spec) -> Outcome:
+    out = Outcome()
+    ops = spec['ops']
+    for fs in spec['files']:
+        _selfcheck_user_file(fs)  # AssertionError = bug of the generator (exit 2)
+    files = {}
+    for fs in spec['files']:
+        _text, mentioned, _parsed = _user_file(fs)
+        files[fs['name']] = dict(kind='user', content=mentioned)
+        layouts = {s['layout'] for s in fs['sections']}
+        out.classes += [f'user_file:layout:{x}' for x in sorted(layouts)]
+        n = len(mentioned)
+        out.classes.append('user_file:entries=' + ('0' if n == 0 else '1-5' if n <= 5 else '6-15' if n <= 15 else '16+'))
+        if any(s['strays'] for s in fs['sections']) or fs['unknown_section']:
+            out.classes.append('user_file:ignored_entries')
+        if fs['crlf']:
+            out.classes.append('user_file:crlf')
+        if any(e[4] is not None for s in fs['sections'] for e in s['entries']):
+            out.classes.append('user_file:entry_comments')
+    out.classes += sorted({f'step:{op[0]}' for op in ops})
+    out.classes.append(f'dumps={min(sum(1 for op in ops if op[0] == "dump"), 4)}')
+    res = isolate.call(_observe_tomlhist, spec)
+    what = render_tomlhist(spec)
+    if not res['ok']:
+        if res['exc_type'] == 'AssertionError':
+            raise AssertionError(res['exc_msg'])
+        out.fail(f'tomlhist:setup:raises:{res["exc_type"]}',
+                 f'{what}: {res["exc_type"]}: {res["exc_msg"][:300]}\n{res["tb"][-700:]}')
+        return out
+    v = res['value']
+    if v['native_dump_error']:
+        out.fail('toml:dump_file:multiline_comment',
+                 f'Parameters.generate_document fails with the installed tomlkit: {v["native_dump_error"]}')
+    defaults = dict(v['defaults'])
+    all_defaults = dict(defaults)
+    for name, section, _tname, default in EXTRA_PARAMETERS:
+        all_defaults[f'{section}/{name}'] = default
+    vals = dict(defaults)  # reference model: value every parameter of the current object must have
+    origin = None  # keys mentioned by the hand-written file the current object read last (None: no such file)
+    seen = set()
+
+    def report(key, msg):
+        if key not in seen:  # one report per root cause and case
+            seen.add(key)
+            out.fail(key, msg)
+
+    def verify_file(tag, i, op, fname, dumped, got, written):
+        """A fresh object that read `fname` (values `got`) against the values of the object that wrote it."""
+        for k, exp in dumped.items():
+            g = got.get(k)
+            if _same_enc(g, exp):
+                continue
+            how = _mismatch(g, exp)
+            if written is not None and k not in written:
+                how = 'not_written'
+            report(f'tomlhist:{tag}:{exp[0]}:{how}',
+                   f'{what}: step {i} {op!r}: the object held {k} = {_dec(exp)!r} ({exp[0]}); a fresh object that '
+                   f'reads {fname!r} has {None if g is None else _dec(g)!r}'
+                   + (f' ({g[0]})' if g is not None else '')
+                   + ('; the file does not contain the entry' if how == 'not_written' else ''))
+        for k in got:
+            if k not in dumped:
+                report(f'tomlhist:{tag}:extra_parameter', f'{what}: step {i} {op!r}: {k} only in the re-read object')
+
+    for i, op in enumerate(ops):
+        if i >= len(v['steps']):
+            break
+        step, kind = v['steps'][i], op[0]
+        if step['exc']:
+            out.fail(f'tomlhist:{kind}:raises:{step["exc"][0]}',
+                     f'{what}: step {i} {op!r} raised {step["exc"][0]}: {step["exc"][1]}\n{step["exc"][2]}')
+            break
+        ambiguous = set()
+        if kind in ('new', 'open'):
+            vals, origin = dict(defaults), None
+        if kind == 'set':
+            if step['refused']:
+                out.skipped = 'value refused by set_value'
+                return out
+            section = op[2]
+            if section is None:
+                hits = [k for k in vals if k.split('/', 1)[1] == op[1]]
+                if len(hits) != 1:
+                    raise AssertionError(f'harness: set without section is not unique: {op!r} {hits}')
+                vals[hits[0]] = op[3]
+            else:
+                if f'{section}/{op[1]}' not in vals:
+                    raise AssertionError(f'harness: set on a parameter the object does not know: {op!r}')
+                vals[f'{section}/{op[1]}'] = op[3]
+        elif kind == 'add':
+            name, section, _tname, default = EXTRA_PARAMETERS[op[1]]
+            vals[f'{section}/{name}'] = default
+        elif kind in ('open', 'read'):
+            f = files.get(op[1])
+            if step['refused']:
+                if f is not None and f['kind'] == 'user' and step['refused']['also_by_set_value']:
+                    out.skipped = 'value refused by read_file and by set_value'
+                    return out
+                out.fail(f'tomlhist:{kind}:refused:{"user_file" if f and f["kind"] == "user" else "dumped_file"}',
+                         f'{what}: step {i} {op!r}: read_file refuses the file although set_value accepts every '
+                         f'value it gives: {step["refused"]["msg"]}')
+                break
+            if (f is not None) != step['existed']:
+                raise AssertionError(f'harness: model and directory disagree on the existence of {op[1]!r}')
+            if f is None:
+                out.classes.append('read_missing_file')
+                if 'created_readback' in step:
+                    # the library writes the current values to the missing file: that file must read back
+                    verify_file('created', i, op, op[1], vals, step['created_readback'], step['written'])
+                    files[op[1]] = dict(kind='dump', content=dict(vals))
+            else:
+                for k in vals:
+                    if k in f['content']:
+                        vals[k] = f['content'][k]
+                    elif not _same_enc(vals[k], all_defaults[k]):
+                        ambiguous.add(k)  # not mentioned by the file: the held value stays (or the default)
+                if f['kind'] == 'user':
+                    origin = set(f['content'])
+                    out.classes.append('reads_user_file:' + ('fresh_object' if kind == 'open' and i == 0 else
+                                                             'later' if kind == 'open' else 'live_object'))
+                else:
+                    origin = None
+                    out.classes.append('reads_dumped_file')
+        live = step['live']
+        if set(live) != set(vals):
+            report(f'tomlhist:{kind}:parameter_set',
+                   f'{what}: step {i} {op!r}: the object has parameters {sorted(set(live) ^ set(vals))} more/less')
+        for k, exp in vals.items():
+            g = live.get(k)
+            if _same_enc(g, exp):
+                continue
+            if k in ambiguous and _same_enc(g, all_defaults[k]):
+                vals[k] = all_defaults[k]
+                continue
+            if kind == 'dump':
+                report('tomlhist:dump_changes_values',
+                       f'{what}: step {i} {op!r}: {k} was {_dec(exp)!r} before dump_file, the object now holds '
+                       f'{None if g is None else _dec(g)!r}')
+            else:
+                src = ''
+                if kind in ('open', 'read'):
+                    f = files.get(op[1])
+                    src = ':user_file' if f and f['kind'] == 'user' else ':dumped_file'
+                report(f'tomlhist:{kind}{src}:{exp[0]}:{_mismatch(g, exp)}',
+                       f'{what}: step {i} {op!r}: {k} must be {_dec(exp)!r} ({exp[0]}), the object holds '
+                       f'{None if g is None else _dec(g)!r}' + (f' ({g[0]})' if g is not None else ''))
+            if g is not None:
+                vals[k] = g  # follow the object: one report per cause
+        if kind == 'dump':
+            verify_file('roundtrip', i, op, op[1], step['before'], step['readback'], step['written'])
+            changed = [k for k in vals if not _same_enc(vals[k], all_defaults[k])]
+            if origin is not None:
+                out.classes.append('dump_after_user_file')
+                unmentioned = [k for k in changed if k not in origin]
+                if unmentioned:
+                    out.classes.append('dump_after_user_file:set_values_the_file_does_not_mention')
+                    if len(changed) >= 3:
+                        out.nontrivial = True
+            if files.get(op[1], {}).get('kind') == 'user':
+                out.classes.append('dump_replaces_user_file')
+            files[op[1]] = dict(kind='dump', content=dict(vals))
+    return out
+
+
+@st.composite
+def _user_file_specs(draw, name, params):
+    """A file as a user writes it: a subset of the sections, in any order, each with a subset of its
+    parameters (admissible values, any allowed spelling), comments, ignored entries."""
+    by_section = {}
+    for pname, section, tname, checks in params:
+        by_section.setdefault(section, []).append((pname, tname, checks))
+    known = {(section, pname) for pname, section, _t, _c in params} | \
+            {(section, pname) for pname, section, _t, _d in EXTRA_PARAMETERS}
+    p_section = draw(st.sampled_from([0, 25, 50, 50, 75, 100]))
+    p_entry = draw(st.sampled_from([15, 40, 40, 80, 100]))
+    plain = draw(st.integers(0, 2)) == 0  # one file in three: '[Section]' tables and 'name = value' only
+    sections = []
+    for section in draw(st.permutations(sorted(by_section))):
+        if draw(st.integers(0, 99)) >= p_section:
+            continue
+        entries = []
+        for pname, tname, checks in draw(st.permutations(by_section[section])):
+            if draw(st.integers(0, 99)) >= p_entry:
+                continue
+            entries.append([pname, draw(_admissible_values(tname, checks)),
+                            0 if plain else draw(st.integers(0, 7)),
+                            0 if plain else draw(st.sampled_from([0, 0, 0, 1, 2, 3])),
+                            draw(st.sampled_from([None, None] + ENTRY_COMMENTS))])
+        strays = []
+        if draw(st.integers(0, 5)) == 5:
+            pool = [s for s in STRAY_ENTRIES if (section, s[0]) not in known]
+            strays = [list(draw(st.sampled_from(pool)))]
+        layout = 'header' if plain else draw(st.sampled_from(['header'] * 6 + ['dotted', 'inline']))
+        sections.append(dict(section=section, layout=layout, entries=entries, strays=strays,
+                             comment=draw(st.sampled_from([None, None] + ENTRY_COMMENTS)),
+                             head=0 if plain else draw(st.sampled_from([0, 0, 0, 1, 2])),
+                             indent=0 if plain else draw(st.sampled_from([0, 0, 0, 2, 4])),
+                             blank=draw(st.integers(0, 2))))
+    return dict(name=name, header=draw(st.lists(st.sampled_from(HEADER_COMMENTS), max_size=3)),
+                sections=sections, unknown_section=draw(st.integers(0, 5)) == 5,
+                final_newline=draw(st.integers(0, 5)) != 5, crlf=draw(st.integers(0, 7)) == 7)
+
+
+@st.composite
+def strat_tomlhist(draw, tier):
+    cat = [(n, s, t, c) for n, s, t, c, _d in _catalogue()]
+    with_extras = draw(st.integers(0, 3)) == 3
+    extra_params = [(n, s, t, _EXTRA_CHECKS[t]) for n, s, t, _d in EXTRA_PARAMETERS]
+    names = draw(st.lists(st.sampled_from(USER_FILE_NAMES), min_size=1, max_size=2, unique=True))
+    files = [draw(_user_file_specs(n, cat + (extra_params if with_extras else []))) for n in names]
+    extra_names = {e[0] for e in EXTRA_PARAMETERS}
+    existing = list(names)  # files that exist at this point of the history
+    added = []
+    ops = [['open', names[0]] if draw(st.integers(0, 5)) >= 1 else ['new']]
+    n_ops = draw(st.integers(2, 14 if tier == 'thorough' else 10))
+    for _ in range(n_ops):
+        kinds = ['set'] * 6 + ['dump'] * 3 + ['read', 'open']
+        if with_extras and len(added) < len(EXTRA_PARAMETERS):
+            kinds += ['add'] * 2
+        kind = draw(st.sampled_from(kinds))
+        if kind == 'set':
+            pool = cat + [extra_params[i] for i in added]
+            pname, section, tname, checks = draw(st.sampled_from(pool))
+            by_name_only = pname not in extra_names and draw(st.booleans())
+            ops.append(['set', pname, None if by_name_only else section, draw(_admissible_values(tname, checks))])
+        elif kind == 'add':
+            idx = draw(st.sampled_from([i for i in range(len(EXTRA_PARAMETERS)) if i not in added]))
+            added.append(idx)
+            ops.append(['add', idx])
+        elif kind == 'dump':
+            fname = draw(st.sampled_from(DUMP_FILE_NAMES))
+            if fname not in existing:
+                existing.append(fname)
+            ops.append(['dump', fname])
+        else:
+            fname = draw(st.sampled_from(existing * 3 + MISSING_FILE_NAMES))
+            if fname not in existing:
+                existing.append(fname)  # the library creates it
+            if kind == 'open':
+                added = []
+            ops.append([kind, fname])
+    if ops[-1][0] != 'dump':
+        ops.append(['dump', draw(st.sampled_from(DUMP_FILE_NAMES))])
+    return dict(files=files, ops=ops)
+
+
+def render_tomlhist(spec):
+    def one_file(fs):
+        _text, mentioned, _parsed = _user_file(fs)
+        shown = ', '.join(f'{k}={_dec(e)!r}' for k, e in list(mentioned.items())[:6])
+        return (f'{fs["name"]!r} (hand-written, {len(mentioned)} entries'
+                f'{": " + shown if shown else ""}{"..." if len(mentioned) > 6 else ""})')
+
+    def one_op(op):
+        if op[0] == 'set':
+            return f'set_value({op[1]!r}, {_dec(op[3])!r}, {op[2]!r})'
+        if op[0] == 'add':
+            e = EXTRA_PARAMETERS[op[1]]
+            return f'add_parameter({e[1]}/{e[0]}={_dec(e[3])!r})'
+        if op[0] == 'new':
+            return 'Parameters()'
+        if op[0] == 'open':
+            return f'Parameters().read_file({op[1]!r})'
+        return {'read': 'read_file', 'dump': 'dump_file'}[op[0]] + f'({op[1]!r})'
+
+    return 'files ' + '; '.join(one_file(fs) for fs in spec['files']) + ' | ' + '; '.join(
+        one_op(op) for op in spec['ops'])
+
+
+# =============================================================================================
 # sub-check 4: histories of output generation in one directory
 
 OUTPUT_EXT = dict(write_pickle='pickle', write_html='html', write_latex='tex', write_f12='F12')
@@ -1359,6 +1926,17 @@ SUBCHECKS = [
              'any subset of the 27 parameters set to admissible values (both booleans, every algorithm name, '
              'integers up to 1e40, floats 5e-324..inf, arbitrary text) -> dump_file -> (boolean respelling, '
              'removed entries) -> read_file, up to 3 cycles; non-trivial: >= 5 values differ from the defaults',
+             max_skip_fraction=0.05),
+    SubCheck('tomlhist', strat_tomlhist, judge_tomlhist, render_tomlhist, dict(quick=600, thorough=20000),
+             'one parameter object through 3-16 steps {Parameters(), Parameters().read_file, read_file, set_value '
+             '(with / without section), add_parameter (user-defined, also a library name in another section), '
+             'dump_file}; 1-2 hand-written files: a generated subset of sections and entries in any order, '
+             'admissible values in every TOML spelling (+1, 1_000, 0x10, 1E-5, +inf, literal / multi-line strings, '
+             'four boolean spellings), [Section] / dotted / inline tables, comments, ignored entries, CRLF; files '
+             'missing (created by the library), dumped over each other and over the hand-written one. After every '
+             'dump a fresh object reads the file: every parameter == the dumping object == reference model (last '
+             'set / last read / default). non-trivial: a dump by an object that last read a hand-written file, '
+             'holding a non-default value for a parameter that file does not mention, >= 3 non-default values',
              max_skip_fraction=0.05),
     SubCheck('reports', strat_reports, judge_reports, lambda s: render_results(s['results']),
              dict(quick=700, thorough=20000),
